@@ -1,7 +1,8 @@
 // Engine K harness module for iceoryx2_bb_container::flatmap::FlatMap (heap flavour; the body is MetaFlatMap shared with the
 // relocatable and fixed-size flavours) on the compiled real code: a SYMBOLIC SEQUENCE of STEPS operations (insert / remove /
 // write through get_mut_ref) with keys from 0..KEYS on a map of capacity CAP, compared step by step with an array model
-// (`Option<u8>` per key).  BOUNDED: capacity 2, 3 distinct keys, 4 steps from new().
+// (`Option<u8>` per key).  BOUNDED: capacity 2, 3 distinct keys; 3 free steps from new(), and the fixed shape insert, insert,
+// remove, get_mut_ref-write with symbolic keys and values (a hole in front of a stored entry).
 use super::*;
 extern crate alloc;
 fn nofmt(_a: core::fmt::Arguments<'_>) -> alloc::string::String { alloc::string::String::new() }
@@ -9,7 +10,7 @@ fn nolog(_l: iceoryx2_log::LogLevel, _o: core::fmt::Arguments, _a: core::fmt::Ar
 
 const CAP: usize = 2;
 const KEYS: usize = 3;
-const STEPS: usize = 4;
+const STEPS: usize = 3;
 
 fn count(model: &[Option<u8>; KEYS]) -> usize {
     let mut n = 0;
@@ -65,6 +66,30 @@ fn flatmap_sequence_cap2() {
         step += 1;
     }
     kani::cover!(model[1].is_some() && model[2].is_some() && model[0].is_none());
+}
+
+/// fixed shape, symbolic keys / values: two inserts, one removal, then a write through get_mut_ref -- the entry reached through
+/// get_mut_ref is the one stored under THIS key even when a slot in front of it has been vacated
+#[kani::proof]
+#[kani::unwind(6)]
+#[kani::stub(alloc::fmt::format, nofmt)]
+#[kani::stub(iceoryx2_log::__internal_print_log_msg, nolog)]
+fn flatmap_hole_then_get_mut_ref() {
+    let mut m = FlatMap::<u8, u8>::new(CAP);
+    let mut model: [Option<u8>; KEYS] = [None; KEYS];
+    let k1: u8 = kani::any(); let k2: u8 = kani::any(); let k3: u8 = kani::any(); let k4: u8 = kani::any();
+    kani::assume((k1 as usize) < KEYS && (k2 as usize) < KEYS && (k3 as usize) < KEYS && (k4 as usize) < KEYS);
+    let v1: u8 = kani::any(); let v2: u8 = kani::any(); let v4: u8 = kani::any();
+    assert!(m.insert(k1, v1).is_ok()); model[k1 as usize] = Some(v1);
+    let r = m.insert(k2, v2);
+    if k2 == k1 { assert!(r == Err(FlatMapError::KeyAlreadyExists)); } else { assert!(r.is_ok()); model[k2 as usize] = Some(v2); }
+    assert!(m.remove(&k3) == model[k3 as usize]); model[k3 as usize] = None;
+    match m.get_mut_ref(&k4) {
+        Some(r) => { assert!(model[k4 as usize] == Some(*r)); *r = v4; model[k4 as usize] = Some(v4); }
+        None => assert!(model[k4 as usize].is_none()),
+    }
+    assert!(agree(&m, &model));
+    kani::cover!(k3 == k1 && k4 == k2 && k2 != k1);
 }
 
 #[kani::proof]
